@@ -225,28 +225,28 @@ Proof.
   - destruct (resolve_args rec stack L t) as [r'| | | |]; cbn [bind] in H; try discriminate. apply IH. exact H.
   - inversion H; subst. eapply Hr. exact Ea.
 Qed.
-Lemma look_kinds rec : rec_kinds rec -> forall n stack target args L k,
-  look vals dflt inherits rec n stack target args L = Err k -> fk_kind k.
+Lemma look_kinds rec : rec_kinds rec -> forall n stack target args A L k,
+  look vals dflt inherits rec n stack target args A L = Err k -> fk_kind k.
 Proof.
-  intros Hr. induction n as [|n IHn]; intros stack target args L k H; cbn [Foreign.look] in H;
+  intros Hr. induction n as [|n IHn]; intros stack target args A L k H; cbn [Foreign.look] in H;
     destruct (get_value_at vals L target) as [[T| |sub]|].
   - destruct (on_stack L target stack); [inversion H; subst; unfold fk_kind; auto|].
     destruct (rec ((L, target) :: stack) L T) as [T'| | | |] eqn:ET; cbn [bind] in H; try discriminate.
-    + destruct (resolve_args rec stack L args) as [args'| | | |] eqn:EA; cbn [bind] in H; try discriminate.
+    + destruct (resolve_args rec stack A args) as [args'| | | |] eqn:EA; cbn [bind] in H; try discriminate.
       inversion H; subst. eapply resolve_args_kinds; eassumption.
     + inversion H; subst. eapply Hr. exact ET.
   - destruct (str_eqb L dflt); [inversion H; subst; unfold fk_kind; auto | discriminate].
-  - destruct (resolve_args rec stack L args) as [args'| | | |] eqn:EA; cbn [bind] in H; try discriminate.
+  - destruct (resolve_args rec stack A args) as [args'| | | |] eqn:EA; cbn [bind] in H; try discriminate.
     + inversion H; subst. unfold fk_kind. auto.
     + inversion H; subst. eapply resolve_args_kinds; eassumption.
   - inversion H; subst. unfold fk_kind. auto.
   - destruct (on_stack L target stack); [inversion H; subst; unfold fk_kind; auto|].
     destruct (rec ((L, target) :: stack) L T) as [T'| | | |] eqn:ET; cbn [bind] in H; try discriminate.
-    + destruct (resolve_args rec stack L args) as [args'| | | |] eqn:EA; cbn [bind] in H; try discriminate.
+    + destruct (resolve_args rec stack A args) as [args'| | | |] eqn:EA; cbn [bind] in H; try discriminate.
       inversion H; subst. eapply resolve_args_kinds; eassumption.
     + inversion H; subst. eapply Hr. exact ET.
   - destruct (str_eqb L dflt); [inversion H; subst; unfold fk_kind; auto | eapply IHn; exact H].
-  - destruct (resolve_args rec stack L args) as [args'| | | |] eqn:EA; cbn [bind] in H; try discriminate.
+  - destruct (resolve_args rec stack A args) as [args'| | | |] eqn:EA; cbn [bind] in H; try discriminate.
     + inversion H; subst. unfold fk_kind. auto.
     + inversion H; subst. eapply resolve_args_kinds; eassumption.
   - inversion H; subst. unfold fk_kind. auto.
